@@ -1,0 +1,41 @@
+//go:build verif
+
+// Contracts for package path, checked by /verif/govc (see /verif/DESIGN.md).
+// This file contains only comments: it adds no code to any build.
+
+package path
+
+// Strings are an abstract totally ordered sort: equality and < are those of Go.
+
+// PathEq: component-wise equality (the specification of Equal).
+//@ spec PathEq(p Path, q Path) bool
+//@   body len(p) == len(q) && (forall k int :: 0 <= k && k < len(p) ==> p[k] == q[k])
+
+//@ func (Path).Equal
+//@   alloc    0
+//@   ensures  [spec] $r0 == PathEq(p, q)
+//@   loop 1
+//@     invariant len(p) == len(q)
+//@     invariant forall k int :: 0 <= k && k < $i ==> p[k] == q[k]
+//@   props    C20
+
+// Within: d is a strict prefix of p.
+//@ func (Path).Within
+//@   alloc    0
+//@   ensures  [spec] $r0 == (len(p) > len(d) && (forall k int :: 0 <= k && k < len(d) ==> p[k] == d[k]))
+//@   loop 1
+//@     invariant len(p) > len(d)
+//@     invariant forall k int :: 0 <= k && k < $i ==> p[k] == d[k]
+//@   props    C20
+
+// Compare: lexicographic order (component-wise, a proper prefix is smaller).
+//@ func (Path).Compare
+//@   alloc    0
+//@   ensures  [range] $r0 == -1 || $r0 == 0 || $r0 == 1
+//@   ensures  [eq]    $r0 == 0 ==> len(a) == len(b) && (forall k int :: 0 <= k && k < len(a) ==> a[k] == b[k])
+//@   ensures  [lt]    $r0 == -1 ==> exists m int :: 0 <= m && m <= len(a) && m <= len(b) && (forall k int :: 0 <= k && k < m ==> a[k] == b[k]) && ((m == len(a) && m < len(b)) || (m < len(a) && m < len(b) && a[m] < b[m]))
+//@   ensures  [gt]    $r0 == 1 ==> exists m int :: 0 <= m && m <= len(a) && m <= len(b) && (forall k int :: 0 <= k && k < m ==> a[k] == b[k]) && ((m == len(b) && m < len(a)) || (m < len(a) && m < len(b) && a[m] > b[m]))
+//@   loop 1
+//@     invariant $i <= len(b)
+//@     invariant forall k int :: 0 <= k && k < $i ==> a[k] == b[k]
+//@   props    C20
